@@ -44,6 +44,9 @@ LOOKALIKES = [[0x23, 0x56, 0x32], [0x23, 0x56, 0x32, 0x20], [0x20, 0x23, 0x56, 0
 def rand_entry(rng, alpha, maxlen):
     if rng.random() < 0.12:
         return list(rng.choice(LOOKALIKES))
+    if rng.random() < 0.015:
+        # an entry longer than the editor's line capacity (4096 bytes), a multi-byte character across that offset
+        return [0x61] * rng.choice([4093, 4094, 4095, 4096, 4100]) + [rng.choice([0xe9, 0x65e5, 0x1f600])] + [0x62] * rng.randint(0, 3)
     n = rng.choice([1, 1, 2, 2, 3, 3, 4, maxlen])
     return [rng.choice(alpha) for _ in range(rng.randint(1, max(1, n)))]
 
@@ -89,7 +92,7 @@ def c10_cases(tier, seed):
     n = 4000 if tier == "thorough" else 600
     for _ in range(n):
         cfg = cfg_tok(rng)
-        kind = rng.choice(["save", "append_new", "append_existing", "append_existing", "cycles"])
+        kind = rng.choice(["save", "append_new", "append_existing", "append_existing", "cycles", "append_twice", "append_empty_file"])
         alpha = rng.choice([ALPHA10, SMALL])
         mk = lambda: enc(rand_entry(rng, alpha, rng.choice([4, 8, 40])))
         ops = ["new 0 " + cfg] + ["add 0 " + mk() for _ in range(rng.randint(0, 6))]
@@ -103,6 +106,20 @@ def c10_cases(tier, seed):
             ops += ["save 0", "new 1 " + cfg, "load 1"]
             ops += ["add 1 " + mk() for _ in range(rng.randint(0, 5))]
             ops += ["append 1", "new 9 " + cfg, "load 9"]
+            w = len(ops) - 3
+        elif kind == "append_twice":
+            # one session that loaded the file appends several times: each batch must be written once
+            ops += ["save 0", "new 1 " + cfg, "load 1"]
+            for _ in range(rng.randint(2, 3)):
+                ops += ["add 1 " + mk() for _ in range(rng.randint(1, 3))]
+                ops += ["append 1"]
+            ops += ["new 9 " + cfg, "load 9"]
+            w = len(ops) - 3
+        elif kind == "append_empty_file":
+            # the file exists but is empty (or holds only blank lines) when the session loads it
+            ops = ["put " + rng.choice(["-", "-", "a", "a.a"]), "new 0 " + cfg, "load 0"]
+            ops += ["add 0 " + mk() for _ in range(rng.randint(1, 4))]
+            ops += ["append 0", "new 9 " + cfg, "load 9"]
             w = len(ops) - 3
         else:
             ops += ["save 0"]
@@ -178,7 +195,8 @@ def c10_corr(res, exe, driver, tier, seed, tmp):
             res.nontrivial.add(case)
     res.rule = ("fhist stream: (1) every list of <=2 entries of <=2 chars over {LF,CR,\\,n,r,#,blank,e-acute,a} saved and "
                 "reloaded (quick: every 7th pair, offset by seed; thorough: all); (2) random scenarios "
-                "save / append-to-new / append-to-existing / repeated cycles with random settings over a 12-letter alphabet "
+                "save / append-to-new / append-to-existing / several appends by one session / append after loading an empty file / "
+                "repeated cycles with random settings over a 12-letter alphabet "
                 "incl. 3- and 4-byte characters; (3) random legacy files with LF/CRLF/unterminated last line. "
                 "Non-trivial = contains LF, CR, backslash or a multi-byte character; distinct by case text. "
                 "Compared with the model: result of every op, the session's entries, the file bytes.")
@@ -234,6 +252,48 @@ def unescape_py(l):
     return out
 
 
+def c12_crash(res, exe, p1, parsed1, rng, tier, tmp):
+    """What a crash really leaves: the last write of every scenario is repeated with the kernel refusing to let the
+    file grow beyond K bytes (RLIMIT_FSIZE), for sampled K. The file left behind must be a prefix of the file the
+    completed write produces (the premise of the property), and loading it must not panic. Implementation only."""
+    cases, metas = [], []
+    per = 12 if tier == "thorough" else 4
+    for (case, kind, cfg), (ticks, obs) in zip(p1, parsed1):
+        final = obs[-1]
+        if final[2] is None or final[0] != "ok" or len(final[2]) < 2:
+            continue
+        F = final[2]
+        ops = case.split(" ; ")
+        last = ops[-1].split()
+        if last[0] not in ("save", "append"):
+            continue
+        for K in sorted(set(rng.sample(range(0, len(F)), min(per, len(F))))):
+            c = " ; ".join(ops[:-1] + ["c%s %s %d" % (last[0], last[1], K), "new 5 " + cfg, "load 5"])
+            cases.append(c)
+            metas.append((F, K, kind, case))
+    impl = run_impl(exe, "fhist", cases, tmp)
+    res.evaluations += len(cases)
+    stats = {"crash_points": len(cases), "left_shorter_than_whole": 0}
+    for c, (F, K, kind, case), o in zip(cases, metas, impl):
+        ticks, obs = parse_obs(o)
+        left = obs[-3][2]
+        why = None
+        if any(x[0] == "panic" for x in obs):
+            why = "panic"
+        elif left is None:
+            why = "the file is gone after a write cut off at byte %d" % K
+        elif left != F[:len(left)]:
+            why = ("after a %s cut off at byte %d (%s) the file is not a prefix of the completed file: left %r, completed %r"
+                   % (c.split(" ; ")[-3].split()[0][1:], K, kind, bytes(left), bytes(F)))
+        elif obs[-1][0] not in ("ok", "err"):
+            why = "loading the file left by the cut-off write: %s" % obs[-1][0]
+        if left is not None and len(left) < len(F):
+            stats["left_shorter_than_whole"] += 1
+        if why:
+            res.oracle_failures.append({"stream": "fhist-crash", "case": c, "impl": o, "why": why})
+    return stats
+
+
 def c12_corr(res, exe, driver, tier, seed, tmp):
     rng = random.Random(seed * 17 + 11)
     p1 = c12_pass1(tier, seed)
@@ -269,6 +329,7 @@ def c12_corr(res, exe, driver, tier, seed, tmp):
         c = "put %s ; new 5 %s ; load 5 ; add 5 7a ; save 5 ; new 6 %s ; load 6" % (encb(b), cfg, cfg)
         cases.append((c, "bytes", {"data": b}))
         kinds["bytes"] = kinds.get("bytes", 0) + 1
+    crash_stats = c12_crash(res, exe, p1, parsed1, rng, tier, tmp)
     impl, parsed = run_fhist(res, exe, driver, [c[0] for c in cases], tmp, tag="fhist-torn")
     for (case, kind, meta), raw, (ticks, obs) in zip(cases, impl, parsed):
         why = None
@@ -324,8 +385,11 @@ def c12_corr(res, exe, driver, tier, seed, tmp):
                 "then every cut offset >= 4 of each file (quick: at most 40 sampled cuts per file) loaded into a fresh history; "
                 "plus random byte strings (with and without the V2 header) containing invalid UTF-8, lone backslashes, CR/LF "
                 "mixes, NUL, empty and header-only files, followed by add/save/reload to show the history stays usable. "
-                "Non-trivial = a strict prefix of the file (cut) / contains a backslash or a non-ASCII byte (bytes).")
-    res.distribution = {"kinds": kinds}
+                "Non-trivial = a strict prefix of the file (cut) / contains a backslash or a non-ASCII byte (bytes). "
+                "fhist-crash (implementation only): the last save / append of every scenario is repeated with the kernel refusing "
+                "to let the file grow beyond K bytes (RLIMIT_FSIZE, sampled K): what is left on disk must be a prefix of the "
+                "completed file -- the premise under which cut files are what crashes leave -- and must load without panic.")
+    res.distribution = {"kinds": kinds, "crash": crash_stats}
     res.samples = [{"case": c[0], "impl": r} for c, r in list(zip(cases, impl))[:: max(1, len(cases) // 4)]][:4]
 
 
@@ -472,7 +536,78 @@ def prev_file_bytes(pf):
     return pf[0] if pf else None
 
 
+def c11_race(res, exe, driver, tier, seed, tmp):
+    """TRULY concurrent appends: 2-3 sessions that loaded the same file start `append` while the file's lock is held
+    elsewhere, then run as the lock lets them. Whatever order the lock serves them in, the file must be what SOME serial
+    order of the appends gives (the model run on every order, all mtimes distinguishable), within the limit, losing no line
+    while the limit allows."""
+    rng = random.Random(seed * 131 + 3)
+    n = 240 if tier == "thorough" else 24
+    cases = []
+    for _ in range(n):
+        mx = rng.choice([2, 3, 3, 4, 6, 10])
+        cfg = "%d 0 %d" % (mx, int(rng.random() < 0.5))
+        ns = rng.choice([2, 2, 3])
+        ops = ["new 9 " + cfg] + ["add 9 " + enc([0x69, 0x30 + k]) for k in range(rng.randint(1, min(mx, 3)))] + ["save 9"]
+        for i in range(ns):
+            ops += ["new %d %s" % (i, cfg), "load %d" % i]
+        for i in range(ns):
+            ops += ["add %d %s" % (i, enc([0x73, 0x30 + i, 0x2d, 0x30 + k])) for k in range(rng.randint(1, 3))]
+        cases.append((ops, ns, mx, cfg))
+    tail = ["new 8 100 0 0", "load 8"]
+    lines = [" ; ".join(ops + ["race " + " ".join(str(i) for i in range(ns))] + tail) for (ops, ns, mx, cfg) in cases]
+    impl = run_impl(exe, "fhist", lines, tmp)
+    res.evaluations += len(lines)
+    # the serial orders on the model
+    mlines, owner = [], []
+    for k, ((ops, ns, mx, cfg), o) in enumerate(zip(cases, impl)):
+        ticks = o.split("|", 1)[0].strip()
+        for perm in itertools.permutations(range(ns)):
+            serial = ops + ["append %d" % i for i in perm] + tail
+            tk = ticks[:len(ops)] + "1" * ns + "0" * len(tail)
+            mlines.append(tk + " | " + " ; ".join(serial))
+            owner.append(k)
+    model = run_model(driver, "fhist", mlines, tmp) if driver else []
+    allowed = {}
+    for k, m in zip(owner, model):
+        try:
+            _, mobs = parse_obs(m)
+            allowed.setdefault(k, []).append(mobs[-1][1])
+        except Exception:
+            allowed.setdefault(k, []).append(None)
+    stats = {"races": len(lines), "orders_seen": {}}
+    for k, ((ops, ns, mx, cfg), line, o) in enumerate(zip(cases, lines, impl)):
+        _, obs = parse_obs(o)
+        why = None
+        r_race, final = obs[-3], obs[-1]
+        mine = [dec(t.split()[2]) for t in ops if t.startswith("add ") and not t.startswith("add 9 ")]
+        if any(x[0] == "panic" for x in obs):
+            why = "panic"
+        elif r_race[0] != "ok":
+            why = "a concurrent append failed: %s" % r_race[0]
+        elif final[0] != "ok":
+            why = "the file does not load after concurrent appends: %s" % final[0]
+        else:
+            got = final[1]
+            if len(got) > mx:
+                why = "file holds %d entries after concurrent appends, limit %d (every write had a distinguishable mtime)" % (len(got), mx)
+            elif len(got) < min(mx, len(mine)) or (len(mine) + 1 <= mx and not all(e in got for e in mine)):
+                why = "a line appended by a session is missing although the limit %d allows it: file %r, lines %r" % (mx, got, mine)
+            elif len(set(map(tuple, got))) != len(got):
+                why = "a line was written twice: %r" % got
+            elif driver and got not in [a for a in allowed.get(k, []) if a is not None]:
+                why = "the file after concurrent appends %r is not what any serial order of them gives %r" % (got, allowed.get(k))
+            if driver and not why:
+                idx = allowed[k].index(got)
+                stats["orders_seen"][str(idx)] = stats["orders_seen"].get(str(idx), 0) + 1
+        if why:
+            res.oracle_failures.append({"stream": "fhist-race", "case": line, "impl": o, "why": why})
+        res.nontrivial.add(line)
+    return stats
+
+
 def c11_corr(res, exe, driver, tier, seed, tmp):
+    race_stats = c11_race(res, exe, driver, tier, seed, tmp)
     cases = c11_cases(tier, seed)
     impl, parsed = run_fhist(res, exe, driver, [c[0] for c in cases], tmp, tag="fhist-share")
     paths = {"ticks0": 0, "appends": 0}
@@ -489,6 +624,10 @@ def c11_corr(res, exe, driver, tier, seed, tmp):
                 "exists from the start: each session loads when it starts, then add / append / save in random order; shared "
                 "settings, limits 1..10, lines either unique per session or from a small pool with duplicates, LF, CR, "
                 "backslash, leading blank; the observed 'mtime changed' bit of every op is fed to the model. The oracle reads "
-                "the file with its own V2 reader after every op. Non-trivial = at least two appends and two concurrent sessions.")
+                "the file with its own V2 reader after every op. Non-trivial = at least two appends and two concurrent sessions. "
+                "fhist-race: 2-3 sessions (threads) start append while the file lock is held elsewhere and run when it is released "
+                "-- real concurrency under the lock; the resulting file must be within the limit, complete, without repeats, and "
+                "equal to what the model gives for SOME serial order of the appends.")
+    paths["race"] = race_stats
     res.distribution = paths
     res.samples = [{"case": c[0], "impl": r} for c, r in list(zip(cases, impl))[:3]]
